@@ -808,15 +808,70 @@ theorem serveStep_ok (N : Nat) (x : SrvSt) (hx : x.s.inp.length ≤ N)
       · right
         exact ⟨_, rfl, ⟨by simp only []; omega, hacc'⟩, by simp only []; omega⟩
 
-theorem serve_ok (s : Sock) :
-    ∃ r, serve s = .ok r ∧ r.1.inp.length ≤ s.inp.length ∧ ∀ q ∈ r.2, hasDD q.path = false := by
-  unfold serve
+theorem serveLoop_ok (s : Sock) :
+    ∃ r, serveLoop s = .ok r ∧ r.1.inp.length ≤ s.inp.length ∧ ∀ q ∈ r.2, hasDD q.path = false := by
+  unfold serveLoop
   exact iterate_ok serveStep (fun x => x.s.inp.length)
     (fun x => x.s.inp.length ≤ s.inp.length ∧ ∀ q ∈ x.acc, hasDD q.path = false)
     (fun r => r.1.inp.length ≤ s.inp.length ∧ ∀ q ∈ r.2, hasDD q.path = false)
     (fun x hx => serveStep_ok s.inp.length x hx.1 hx.2)
     (s.inp.length + 1) ⟨s, []⟩ ⟨Nat.le_refl _, by simp⟩ (by simp only []; omega)
 
+theorem closeBehind_inp_le (s : Sock) : (closeBehind s).inp.length ≤ s.inp.length := by
+  unfold closeBehind
+  split
+  · exact Nat.le_refl _
+  · split <;> simp
+
+theorem closeBehind_closed (s : Sock) : (closeBehind s).closed = true := by
+  unfold closeBehind
+  split
+  · assumption
+  · split <;> rfl
+
+theorem closeBehind_err (s : Sock) (h : s.err = 0) : (closeBehind s).err = 0 := by
+  unfold closeBehind
+  split
+  · exact h
+  · split
+    · rename_i h2; simp [h] at h2
+    · exact h
+
+theorem closeBehind_out (s : Sock) : (closeBehind s).out = s.out := by
+  unfold closeBehind
+  split
+  · rfl
+  · split <;> rfl
+
+theorem closeBehind_suffix (s : Sock) : ∃ w, s.inp = w ++ (closeBehind s).inp := by
+  unfold closeBehind
+  split
+  · exact ⟨[], rfl⟩
+  · split
+    · exact ⟨[], rfl⟩
+    · exact ⟨s.inp, by simp⟩
+
+/-- `serve` = the loop, then `closeBehind` -/
+theorem serve_eq (s : Sock) (res : Sock × List Req) (h : serve s = .ok res) :
+    ∃ r, serveLoop s = .ok r ∧ res = (closeBehind r.1, r.2) := by
+  unfold serve at h
+  cases hl : serveLoop s with
+  | error e => rw [hl] at h; simp [bind, Except.bind] at h
+  | ok r =>
+    rw [hl] at h
+    simp only [bind, Except.bind, pure, Except.pure, Except.ok.injEq] at h
+    exact ⟨r, rfl, h.symm⟩
+
+theorem serve_of_loop (s : Sock) (r : Sock × List Req) (h : serveLoop s = .ok r) :
+    serve s = .ok (closeBehind r.1, r.2) := by
+  unfold serve
+  rw [h]
+  rfl
+
+theorem serve_ok (s : Sock) :
+    ∃ r, serve s = .ok r ∧ r.1.inp.length ≤ s.inp.length ∧ ∀ q ∈ r.2, hasDD q.path = false := by
+  obtain ⟨r, hr, hl, hq⟩ := serveLoop_ok s
+  exact ⟨_, serve_of_loop s r hr, Nat.le_trans (closeBehind_inp_le r.1) hl, hq⟩
 
 /-! ## `Url::Url` -/
 
